@@ -31,11 +31,14 @@ from . import common, tlc
 from .common import Ctx, Outcome, Violation
 
 NAME = "p"
-BASE_PATH = {1: "", 2: "/", 3: "/api", 4: "/api/", 5: "/api/v1", 6: "/srv", 7: "/api/v1/"}
+BASE_PATH = {1: "", 2: "/", 3: "/api", 4: "/api/", 5: "/api/v1", 6: "/srv", 7: "/api/v1/", 8: "/api"}
 URL_TMPL = {1: "/x/{p}", 2: "/x/{p}/y", 3: "/{p}"}
 MEDIA = {"json": "application/json", "form": "application/x-www-form-urlencoded", "text": "text/plain",
-         "multipart": "multipart/form-data", "multipart-file": "multipart/form-data"}
-BODY_PATH = {"multipart-file": "/bodyf"}
+         "multipart": "multipart/form-data", "multipart-file": "multipart/form-data", "multipart-raw": "multipart/form-data",
+         "yaml": "application/yaml", "xml": "application/xml", "binary": "application/octet-stream",
+         "json-suffix": "application/vnd.api+json", "form-list": "application/x-www-form-urlencoded"}
+BODY_PATH = {"multipart-file": "/bodyf", "multipart-raw": "/bodyr"}
+CTYPE_ONLY = ("multipart", "multipart-file", "multipart-raw", "yaml", "xml", "binary")   # payload encoding outside the fragment
 CONF_HEADERS = {"X-Conf": "v 1;q=a"}
 TRANSPORTS = ("requests", "wsgi", "asgi")
 ASPECTS = ("url", "param", "extra", "hdrs", "conf", "id", "host", "method", "ctype", "body")
@@ -127,6 +130,9 @@ def build_doc(dialect: str) -> dict:
     paths["/body"] = {"post": {"requestBody": {"required": True, "content": {
         MEDIA["json"]: {"schema": {}}, MEDIA["form"]: {"schema": {"type": "object"}}, MEDIA["text"]: {"schema": {"type": "string"}}}},
         "responses": OK_RESP}}
+    for key, schema in (("yaml", {}), ("xml", {"type": "object"}), ("binary", {"type": "string", "format": "binary"}), ("json-suffix", {})):
+        paths["/body"]["post"]["requestBody"]["content"][MEDIA[key]] = {"schema": schema}
+    paths["/bodyr"] = {"post": {"requestBody": {"required": True, "content": {MEDIA["multipart"]: {"schema": {"type": "string"}}}}, "responses": OK_RESP}}
     for path, a_schema in (("/body", {"type": "string"}), ("/bodyf", {"type": "string", "format": "binary"})):
         content = paths.setdefault(path, {"post": {"requestBody": {"required": True, "content": {}}, "responses": OK_RESP}})
         content["post"]["requestBody"]["content"][MEDIA["multipart"]] = {
@@ -191,6 +197,9 @@ def get_schema(dialect: str, base: int, transport: str):
         s = schemathesis.openapi.from_dict(raw)
         if base == 6:
             s.configure(location=root + "/openapi.json")
+        elif base == 8:
+            # an in-process application configured with a host-less base URL; over sockets the same base path on the server
+            s.configure(base_url=(root if transport == "requests" else "") + BASE_PATH[8])
         elif base == 7:
             # the base URL is given at call time; a call-time base URL is not a notion of the WSGI transport, which gets it configured
             s.configure(base_url=root + (BASE_PATH[7] if transport == "wsgi" else "/other"))
@@ -267,6 +276,36 @@ def pipeline_coverage(op, loc: str, value):
     t = Template(get_serializers_for_operation(op))
     t.add_parameter(loc, NAME, coverage.GeneratedValue.with_positive(copy.deepcopy(value), description="verif"))
     return dict(t.unmodified().kwargs)
+
+
+def pipeline_generate_body(el: dict, value):
+    """Real generation of the payload: `operation.as_strategy` on an operation whose only body schema admits exactly the value, so the
+    media type choice, `prepare_urlencoded` and the body filters of `openapi_cases` run; returns the generated case's body and media type."""
+    import schemathesis
+    from hypothesis import HealthCheck, Phase, given, settings
+    from hypothesis.errors import Unsatisfiable
+    from schemathesis.generation import GenerationMode
+
+    media = el["media"]
+    shown = [{k: v} for k, v in value.items()] if media == "form-list" else value
+    schema = _pinned_schema(shown)
+    if media in ("multipart", "multipart-file"):
+        schema["properties"] = {"a": {"type": "string", "format": "binary"} if media == "multipart-file" else {"type": "string"}, "b": {"type": "string"}}
+    raw = {"openapi": "3.0.2", "info": {"title": "t", "version": "1"},
+           "paths": {"/gb": {"post": {"requestBody": {"required": True, "content": {MEDIA[media]: {"schema": schema}}}, "responses": OK_RESP}}}}
+    s = schemathesis.openapi.from_dict(raw).configure(base_url="http://127.0.0.1:1/api")
+    got: list = []
+
+    @settings(max_examples=1, database=None, deadline=None, suppress_health_check=list(HealthCheck), phases=[Phase.generate], derandomize=True)
+    @given(s["/gb"]["POST"].as_strategy(generation_mode=GenerationMode.POSITIVE))
+    def run(c):
+        got.append(c)
+
+    try:
+        run()
+    except Unsatisfiable:
+        return None
+    return {"body": got[0].body, "media_type": got[0].media_type}
 
 
 SECOND_BODY = {"k": "prim", "items": [{"t": "str", "s": [116], "n": 0}], "keys": []}   # the text/plain variant's payload: "t"
@@ -364,7 +403,12 @@ def run_element(el: dict) -> list[dict]:
     d = el["def"]
     pipes: list[tuple[str, dict | None]] = []
     if el["kind"] == "body":
-        pipes.append(("X", {"body": value, "media_type": MEDIA[el["media"]]}))
+        try:
+            pipes.append(("G", pipeline_generate_body(el, value)))
+        except Exception as exc:
+            pipes.append(("G", {"__error__": "%s: %s" % (type(exc).__name__, exc)}))
+        if el["media"] != "form-list":   # a list of one-pair objects is a shape only generation produces (prepare_urlencoded)
+            pipes.append(("X", {"body": value, "media_type": MEDIA[el["media"]]}))
     else:
         loc = d["loc"]
         op = get_operation(el, "requests")
@@ -839,15 +883,15 @@ def py_judge(o: dict, fragment: str, want: dict) -> dict:
     bval = o.get("bval", o["val"])
     bwant = (bval["k"], tuple(py_coerce(x) for x in bval["items"]), tuple(text(k) for k in bval["keys"]))
     bt = txt(o["body"], "dec")
-    multipart = media in ("multipart", "multipart-file")
-    if multipart:
+    multipart = media.startswith("multipart")
+    if media in CTYPE_ONLY:
         body = "U"
     elif media == "none":
         body = "T" if not o["body"] else "F"
-    elif media == "json":
+    elif media in ("json", "json-suffix"):
         j = typed_json(bt) if bt is not None else None
         body = "T" if j is not None and same_typed(j, typed(bval)) else "F"
-    elif media == "form":
+    elif media in ("form", "form-list"):
         if any(x["t"] in ("bool", "null") for x in bval["items"]):
             body = "U"
         else:
@@ -1125,7 +1169,8 @@ def run(ctx: Ctx) -> Outcome:
         elif el["kind"] != "body":
             judged_param += 1
         if v["body"] == "U":
-            why = "multipart-body-encoding" if el["media"].startswith("multipart") else "form-body-bool-null"
+            why = ("multipart-body-encoding" if el["media"].startswith("multipart") else "payload-encoding-outside-fragment"
+                   if el["media"] in CTYPE_ONLY else "form-body-bool-null")
             skipped[why] = skipped.get(why, 0) + 1
         if value_features(el["val"]):
             nontrivial += 1
@@ -1149,6 +1194,7 @@ def run(ctx: Ctx) -> Outcome:
     emit(out, cases, results, again, [(cases[ci], "C2", v) for (ci, r), v in zip(flat, verdicts)
                                       if r["pipe"] == "C2" and c_verdict.get((ci, r["transport"]), {}).get("param") == "T"], judged_tr, "C2")
     checked = realgen_crosscheck(ctx, rng, cases, results)
+    checked_cov = realcov_crosscheck(ctx, rng, cases, out)
     sample_pool = [(ci, r, v) for (ci, r), v in zip(flat, verdicts) if cases[ci]["kind"] == "param" and v["param"] == "T" and value_features(cases[ci]["val"])]
     out.coverage = {
         "states": res.distinct, "transitions": res.generated,
@@ -1172,6 +1218,7 @@ def run(ctx: Ctx) -> Outcome:
         "not_generated_filtered_by_repo": filtered,
         "send_errors": errors,
         "real_generation_crosschecked": checked,
+        "real_coverage_phase_crosschecked": checked_cov,
         "failing_observations": len(fails),
         "tlc_enumeration_s": round(res.wall_s, 1), "replay_s": round(t_replay, 1), "tlc_judge_s": round(jres.wall_s, 1),
     }
@@ -1250,6 +1297,60 @@ def realgen_crosscheck(ctx: Ctx, rng, cases, results) -> int:
     if bad:
         raise tlc.TLCFailure("the G pipeline of the driver differs from operation.as_strategy on %d of %d sampled elements, e.g. %s" % (
             len(bad), len(items), bad[:3]))
+    return len(items)
+
+
+def _realcov(item) -> tuple:
+    """The real coverage phase (`_iter_coverage_cases`, positive mode) on an operation whose parameter schema admits exactly the value and
+    whose request body has two media types: every yielded case must carry what the judged pipeline C produced."""
+    el, expected, with_body = item
+    import schemathesis
+    from schemathesis.generation import GenerationMode
+    from schemathesis.generation.hypothesis.builder import _iter_coverage_cases
+
+    d = el["def"]
+    value = value_py(el["val"])
+    p = param_object(d)
+    if "content" in p:
+        p["content"]["application/json"]["schema"] = _pinned_schema(value)
+    else:
+        p["schema"] = _pinned_schema(value)
+    path = "/r/{p}" if d["loc"] == "path" else "/r"
+    raw = {"openapi": "3.0.2", "info": {"title": "t", "version": "1"},
+           "paths": {path: {"post": {"parameters": [p], "responses": OK_RESP, "requestBody": {"required": True, "content": {
+               MEDIA["json"]: {"schema": {"type": "integer", "enum": [1]}}, MEDIA["text"]: {"schema": {"type": "string", "enum": ["t"]}}}}}}}}
+    if not with_body:
+        # the other shape of the phase: no payload, further cases derived per value of a second parameter (`unmodified` + `with_parameter`)
+        del raw["paths"][path]["post"]["requestBody"]
+        other = "header" if d["loc"] == "query" else "query"
+        raw["paths"][path]["post"]["parameters"].append({"name": "z", "in": other, "required": True, "schema": {"type": "string", "enum": ["1", "2"]}})
+    s = schemathesis.openapi.from_dict(raw).configure(base_url="http://127.0.0.1:1/api")
+    try:
+        got = [getattr(c, CONTAINER[d["loc"]]) for c in _iter_coverage_cases(s[path]["POST"], [GenerationMode.POSITIVE])]
+    except Exception as exc:
+        return False, 0, "%s: %s" % (type(exc).__name__, exc), ""
+    want = expected.get(CONTAINER[d["loc"]])
+    bad = [(k + 1, dict(g) if g is not None else None) for k, g in enumerate(got) if (dict(g) if g is not None else None) != want]
+    return not bad and len(got) >= 2, len(got), repr(bad[:2]), repr(want)
+
+
+def realcov_crosscheck(ctx: Ctx, rng, cases, out: Outcome) -> int:
+    pool = [ci for ci, c in enumerate(cases) if c["kind"] == "param" and c["def"]["dialect"] == "oas3"]
+    picks = common.sample(rng, pool, 160 if ctx.quick else 1600)
+    items = []
+    for ci in picks:
+        el = cases[ci]
+        try:
+            items.append((el, pipeline_coverage(get_operation(el, "requests"), el["def"]["loc"], value_py(el["val"])), len(items) % 2 == 0))
+        except Exception:
+            continue
+    for (el, _, _), (ok, n, bad, want) in zip(items, common.pmap(_realcov, items)):
+        if not ok:
+            d = el["def"]
+            out.violations.append(Violation(
+                "C06:coverage-phase:%s:%s:%s:explode=%s:%s:case-differs" % (d["dialect"], d["loc"], d["style"], d["explode"], d["type"]),
+                "the coverage phase yields %d cases for value %r; case(s) %s differ from the first / judged one %s" % (n, value_py(el["val"]), bad, want),
+                {"element": el, "pipe": "C2", "aspect": "param", "transports": ["requests"]}))
     return len(items)
 
 
